@@ -84,15 +84,25 @@ func anonTypeName(nameOrDefn TypeNameOrInlineDefn) string {
 	switch {
 	case defn.TypeDefnMap != nil:
 		defn := defn.TypeDefnMap
-		return fmt.Sprintf("Map__%s__%s", defn.KeyType, anonTypeName(defn.ValueType))
+		return fmt.Sprintf("Map__%s__%s", defn.KeyType, anonValueName(defn.ValueType, defn.ValueNullable))
 	case defn.TypeDefnList != nil:
 		defn := defn.TypeDefnList
-		return fmt.Sprintf("List__%s", anonTypeName(defn.ValueType))
+		return fmt.Sprintf("List__%s", anonValueName(defn.ValueType, defn.ValueNullable))
 	case defn.TypeDefnLink != nil:
 		return anonLinkName(*defn.TypeDefnLink)
 	default:
 		panic(fmt.Errorf("%#v", defn))
 	}
+}
+
+// anonValueName names the value type of an anonymous map or list.
+// Nullability of the values is part of the anonymous type's definition, so it has to be part of its name:
+// otherwise {String:nullable Int} and {String:Int} share one name, and whichever is compiled first defines both.
+func anonValueName(nameOrDefn TypeNameOrInlineDefn, nullable *bool) string {
+	if nullable != nil && *nullable {
+		return "Nullable__" + anonTypeName(nameOrDefn)
+	}
+	return anonTypeName(nameOrDefn)
 }
 
 func anonLinkName(defn TypeDefnLink) string {
